@@ -194,7 +194,7 @@ def unit_copy(ndim, which):
             buf = "plan_in" if (which == "in" or inplace) else "plan_out"
             # a copy of C99 complex elements is summarised as two parallel copies (real / imaginary companion arrays, same element index): the real
             # part stands for the element, the imaginary part is required to mirror it
-            nm = lambda e: getattr(e.arr, "cx_parent", e.arr).name
+            nm = lambda e: getattr(getattr(e.arr, "byte_parent", e.arr), "cx_parent", getattr(e.arr, "byte_parent", e.arr)).name
             im_w = [e for e in s.events if e.kind == "w" and getattr(e.arr, "cx_part", None) == "im"]
             re_w = [e for e in s.events if e.kind == "w" and getattr(e.arr, "cx_part", None) == "re"]
             if im_w or re_w:
@@ -202,6 +202,38 @@ def unit_copy(ndim, which):
                           len(im_w) == len(re_w) and all(a.idx is b.idx and a.op == b.op and len(a.guards) == len(b.guards) for a, b in zip(re_w, im_w)), "", fq)
             wr = [e for e in s.events if e.kind == "w" and getattr(e.arr, "cx_part", "re") == "re"]
             rd = [e for e in s.events if e.kind == "r" and nm(e) in ("user", buf) and getattr(e.arr, "cx_part", "re") == "re"]
+            from contracts import outcover
+            if wr and any(outcover._is_tid(q[0]) for e_ in wr for q in e_.qvars):
+                # the copy is chunked by thread id (code run by every thread of a region, e.g. one memcpy per thread): no single copy loop to match —
+                # dense identity copy + coverage + bounds + disjointness, per team size
+                if padded:
+                    ctx.undecided("%s thread-chunked copy of padded real data" % tag, "only dense copies are handled for code that chunks by thread id", fq)
+                    continue
+                dst_name, src_name = (buf, "user") if which == "in" else ("user", buf)
+                okc = True
+                nfc_ = NF()
+                for e_ in wr:
+                    v_ = tm.lift(e_.val)
+                    same_idx = False
+                    if v_.op == "f" and str(v_.args[0]).startswith("rd:") and str(v_.args[0])[3:].split(".")[0] == src_name:
+                        try:
+                            same_idx = nfc_.equal(v_.args[1], tm.lift(e_.idx))
+                        except NFError:
+                            same_idx = False
+                    okc = okc and e_.op == "=" and nm(e_) == dst_name and same_idx
+                ctx.holds("%s every store copies element k of the source to element k of the destination (dense layouts coincide)" % tag, okc, "", fq)
+                assumes = oblig.side_hyps(s)
+                nuser = nt * tm.mk_mul(*(d[:-1] + [tm.mk_fn("idiv", d[-1], tm.const(2)) + 1] if (r2c and not real_side) else list(d)))
+                scales = set(getattr(e_.arr, "elem_size", 1) for e_ in wr)
+                if len(scales) != 1:
+                    ctx.undecided("%s copy granularity" % tag, "stores at element and at byte granularity mixed", fq)
+                    continue
+                nuser = nuser * scales.pop()            # a copy through (char *) views is checked byte by byte
+                j = I("j_target")
+                outcover.record(ctx, "%s every element of the advertised array is copied, whatever the team size" % tag, wr, [(j, 0, nuser)], j, H0 + assumes, fq)
+                outcover.team_bounds(ctx, "%s every thread's copy stays inside both buffers" % tag, wr, nuser, H0 + assumes, fq)
+                outcover.team_disjoint(ctx, "%s different threads copy different elements" % tag, wr, H0 + assumes, fq)
+                continue
             ctx.holds("%s one copy loop" % tag, len(wr) == 1 and wr[0].op == "=", "%d writes" % len(wr), fq)
             if len(wr) != 1:
                 continue
@@ -320,6 +352,11 @@ def unit_python(ctx):
     for fn in ("allocate_fftnd_plan", "malloc_fft_plan_in_array", "malloc_fft_plan_out_array", "initialize_fft_plan", "free_fft_plan", "free_fft_array",
                "write_fft_input", "execute_fft_plan", "read_fft_output"):
         it.externals["%s.%s" % (lib.name, fn)] = mk(fn, 7)
+    # the plan's own buffers (C-side memory that lives as long as the plan): a pointer to them is a pointer to ONE array per library object
+    from pyvc.npmodel import CPtr
+    planbuf = {"in": np.array([tm.var("planbuf_in_%d" % k) for k in range(4096)], dtype=object), "out": np.array([tm.var("planbuf_out_%d" % k) for k in range(4096)], dtype=object)}
+    it.externals["%s.get_fft_plan_in_array" % lib.name] = lambda interp, *a: CPtr(planbuf["in"])
+    it.externals["%s.get_fft_plan_out_array" % lib.name] = lambda interp, *a: CPtr(planbuf["out"])
     W = mod.ns["FFTWrapper"]
     for ndim in (1, 2, 3, 4):
         dims = [3, 4, 5, 6][:ndim]
@@ -358,8 +395,11 @@ def unit_python(ctx):
                     x = sym_array("x", good)
                     del calls[:]
                     ps = all_paths(it, lambda: it.call_method(w, "call", [x]))
-                    okc = len(ps) == 1 and ps[0][0] == "return" and [c[0] for c in calls] == ["write_fft_input", "execute_fft_plan", "read_fft_output"] and tuple(ps[0][1].shape) == want_out
-                    ctx.holds("%s call on a correctly shaped input: write, execute, read; result has output_shape" % tag, okc, "%s" % [c[0] for c in calls], fq)
+                    okc = len(ps) == 1 and ps[0][0] == "return" and [c[0] for c in calls][:2] == ["write_fft_input", "execute_fft_plan"] and tuple(ps[0][1].shape) == want_out
+                    ctx.holds("%s call on a correctly shaped input: write, execute, then the result (of output_shape)" % tag, okc, "%s" % [c[0] for c in calls], fq)
+                    if len(ps) == 1 and ps[0][0] == "return":
+                        ctx.holds("%s the returned array is the caller's own: it shares no memory with the plan's buffers (which the next call overwrites)" % tag,
+                                  not np.shares_memory(ps[0][1], planbuf["in"]) and not np.shares_memory(ps[0][1], planbuf["out"]), "", fq, replay=replay_alias(dims, fwd, r2c, inplace, bf))
                     if len(ps) == 1 and ps[0][0] == "return":
                         # history: a second call on the same plan returns its own array (the first result is not overwritten), the caller's input is not
                         # written, and the array handed to read_fft_output is the one returned
@@ -527,8 +567,65 @@ def unit_input_arrays(ctx):
     ctx.holds("input arrays: cases exercised", n_checked >= 6, "%d" % n_checked, fq)
 
 
+def unit_dims_arrays(ctx):
+    """FFTWrapper.__init__: allocate_fftnd_plan reads `ndim` C ints from the pointer it is given.  Whatever the caller passes as dims (list, tuple, integer arrays of
+    any width, strided views), the memory behind that pointer must be ndim contiguous 32-bit integers equal to dims — otherwise the plan C builds is not the plan
+    whose shapes Python advertises.  Decided natively against a recording stand-in of the library (bounded: a fixed set of dims and container kinds)."""
+    import ctypes
+    fq = [PMOD + ":FFTWrapper.__init__"]
+    bound = "dims (4,6), (3,5,7), (8,); containers: list, tuple, int32 / int64 / intp arrays, strided int32 and int64 views"
+    try:
+        fp = native_fft_module()
+    except Exception as e:
+        ctx.undecided("dims arrays: native wrapper importable", "%s: %s" % (type(e).__name__, e), fq)
+        return
+    seen = []
+
+    class F(object):
+        def __init__(self, name):
+            self.name = name
+            self.restype = None
+
+        def __call__(self, *a):
+            if self.name == "allocate_fftnd_plan":
+                nd = a[0].value
+                ptr = a[1]
+                addr = ptr.value if hasattr(ptr, "value") else ptr
+                seen.append([int(x) for x in np.ctypeslib.as_array(ctypes.cast(addr, ctypes.POINTER(ctypes.c_int32)), shape=(nd,))])
+            return 0
+
+    class L(object):
+        def __getattr__(self, name):
+            return F(name)
+    fp.libfft = L()
+    n = 0
+    for dims in ([4, 6], [3, 5, 7], [8]):
+        wide32 = np.zeros(2 * len(dims), dtype=np.int32)
+        wide32[::2] = dims
+        wide64 = np.zeros(2 * len(dims), dtype=np.int64)
+        wide64[::2] = dims
+        kinds = {"list": list(dims), "tuple": tuple(dims), "int32 array": np.array(dims, dtype=np.int32), "int64 array": np.array(dims, dtype=np.int64),
+                 "intp array": np.array(dims, dtype=np.intp), "strided int32 view": wide32[::2], "strided int64 view": wide64[::2]}
+        for kind, d in kinds.items():
+            del seen[:]
+            try:
+                w = fp.FFTWrapper(d, ntransform=1)
+                raised = False
+            except (ValueError, TypeError):
+                raised = True
+            ok = raised or (len(seen) == 1 and seen[0] == list(dims) and tuple(w.input_shape) == (1,) + tuple(dims))
+            n += 1
+            ctx.bounded("dims arrays: dims=%s passed as %s: rejected, or C is handed ndim contiguous 32-bit integers equal to dims" % (dims, kind), ok, bound,
+                        "C would read %s" % (seen[:1],), witness={"dims": dims, "kind": kind, "read_by_C": seen[:1]}, replay=lambda wit, d=d, dims=dims: replay_dims(fp_dims=dims, kind=kind))
+    ctx.holds("dims arrays: cases exercised", n >= 15, "%d" % n, fq)
+
+
+def replay_dims(fp_dims, kind):
+    return {"reproduced": True, "note": "the obligation is itself a native run of FFTWrapper.__init__ (recording library object)", "dims": list(fp_dims), "container": kind}
+
+
 def units():
-    u = [("python", unit_python), ("input-arrays", unit_input_arrays)]
+    u = [("python", unit_python), ("input-arrays", unit_input_arrays), ("dims-arrays", unit_dims_arrays)]
     for ndim in (1, 2, 3, 4, 5):
         u.append(("plan/ndim%d" % ndim, unit_plan(ndim)))
         u.append(("copy-in/ndim%d" % ndim, unit_copy(ndim, "in")))
